@@ -8,6 +8,7 @@ import re as _re
 import string
 from typing import Dict, List, Optional, Tuple
 
+from ..memo import check_memo_keys
 from ..core import Unrecognised, NotConstant, call_name, calls_in, facts, fold, has_fact, parent, site, src, walk_local
 
 LANG = "src/isla/language.py"
@@ -66,6 +67,11 @@ def reader_algorithm(ctx):
                     rng = fold(v.args[0].generators[0].iter)
                     ph = chr(rng[0])
                     fresh = "by-construction" if rng[0] >= 256 else "low-range"
+                elif isinstance(v, ast.Call) and call_name(v) == "chr" and len(v.args) == 1:
+                    # some computed code point: fresh w.r.t. the text perhaps, but is it outside what the escapes can produce (< 256)?
+                    lowconst = [x.value for x in ast.walk(v.args[0]) if isinstance(x, ast.Constant) and isinstance(x.value, int)]
+                    ph = "\ue000"
+                    fresh = "by-construction" if (isinstance(v.args[0], ast.BinOp) and isinstance(v.args[0].op, ast.Add) and any(k >= 256 for k in lowconst)) else "computed-low"
                 else:
                     raise Unrecognised("C11.B1", c, f"placeholder expression {src(v)[:60]} not understood")
         if isinstance(n, ast.Assign) and src(n.targets[0]) == "repl_map":
@@ -78,6 +84,8 @@ def reader_algorithm(ctx):
     ctx.check(fresh == "by-construction" and not has_assert, "B1-placeholder-fresh", c, "placeholder guaranteed absent from the text", site(f),
               ("the placeholder is a constant that is merely asserted to be absent: a terminal containing it makes parse_bnf raise AssertionError" if fresh == "constant" and not has_loop else
                "a multi-character placeholder extended in a loop can overlap with neighbouring text and be restored at the wrong position" if has_loop else
+               "the placeholder is a computed character that can be below 256: an \\xNN escape in the same text can produce exactly that character, which is then turned into a backslash "
+               "(e.g. the terminal '~\\x7f' comes back as '~\\\\')" if fresh == "computed-low" else
                "placeholder taken from a range the escape table itself can produce"),
               "single character outside the range of all escape sequences, chosen not to occur in the text")
     if ph is None or not isinstance(table, dict):
@@ -204,7 +212,14 @@ def rule_b4(ctx):
     ctx.check(ok, "B4-langle-placeholder", f"{LANG}:BnfEmitter.exitBnf_grammar", "placeholder instantiated by the free nonterminal in every alternative", site(g), "placeholder instantiation changed", "instantiated")
 
 
+def rule_b5(ctx):
+    """No memo in the BNF reader/writer path is keyed by a normalisation of its input."""
+    n = check_memo_keys(ctx, "B5-memo-key", [LANG, HELPERS])
+    ctx.inventory["memo_sites"] = n
+
+
 def run(ctx) -> str:
+    ctx.guarded("B5", lambda: rule_b5(ctx))
     ctx.guarded("B1", lambda: rule_b1(ctx))
     ctx.guarded("B2", lambda: rule_b2(ctx))
     ctx.guarded("B3", lambda: rule_b3(ctx))
